@@ -443,7 +443,7 @@ func main() {
 		}
 		select {
 		case <-doneCh:
-		case <-time.After(10 * time.Second):
+		case <-time.After(ts(10 * time.Second)):
 			return true
 		}
 		// finishSnapshotFunc runs before the exit point, so the flag is down by now
@@ -634,7 +634,7 @@ func main() {
 				tickTaken.Store(0)
 				tickRuns.Store(0)
 				mu.Unlock()
-				time.Sleep(time.Duration(ms) * time.Millisecond)
+				time.Sleep(ts(time.Duration(ms) * time.Millisecond))
 				mu.Lock()
 				fmt.Fprintf(out, "Z taken=%d ls=%d\n", tickTaken.Load(), in.db.VerifLatestSnapshot())
 				out.Flush()
